@@ -96,6 +96,9 @@ type Machine struct {
 	transitions int
 	maxDepth   int
 	shardIdx, shardN, shardDepth int
+	prefixDepth int               // >0: phase 1, emit prefixes at this fork depth
+	prefixes    [][]savedDecision // emitted prefixes
+	minDepth    int               // worker: decisions below this index belong to the assigned prefix (never flipped)
 	forkKey    []int
 	skipped    int
 	fsEvents   []string
@@ -186,10 +189,29 @@ func (m *Machine) noteFork(d *decision) {
 }
 
 func (m *Machine) checkShard() {
+	if m.prefixDepth > 0 {
+		// phase 1 of distributed exploration: when a path has made prefixDepth fork
+		// decisions, hand the rest of its subtree to a worker instead of exploring it
+		nf := 0
+		for _, d := range m.trace {
+			if d.forked {
+				nf++
+			}
+		}
+		if nf == m.prefixDepth && len(m.trace) > m.minDepth {
+			pf := make([]savedDecision, len(m.trace))
+			for i, d := range m.trace {
+				pf[i] = savedDecision{What: d.what, N: d.n, Chosen: d.chosen, Vals: d.vals, Forked: d.forked, Free: d.free}
+			}
+			m.prefixes = append(m.prefixes, pf)
+			m.skipped++
+			m.abort("handed to a worker")
+		}
+		return
+	}
 	if m.shardN <= 1 {
 		return
 	}
-	// count fork decisions so far
 	// the key must not depend on the order in which a solver enumerated values:
 	// value decisions contribute the chosen VALUE, Boolean/free decisions the index
 	var key []int
@@ -213,6 +235,16 @@ func (m *Machine) checkShard() {
 		m.skipped++
 		m.abort("other shard")
 	}
+}
+
+// savedDecision is a decision of a prefix handed from phase 1 to a worker.
+type savedDecision struct {
+	What   string   `json:"w"`
+	N      int      `json:"n"`
+	Chosen int      `json:"c"`
+	Vals   []uint64 `json:"v,omitempty"`
+	Forked bool     `json:"f,omitempty"`
+	Free   bool     `json:"r,omitempty"`
 }
 
 // decideN picks one of the alternative constraints conds (exactly those that are feasible are explored).
